@@ -12,11 +12,12 @@ CFG = {
                   "(clock advance to the controlling agent's next tick, then three in-order waves of deliveries), also with "
                   "arbitrary extra deliveries / duplications before every round; with C01_mirror_partial the pairs are mirror images "
                   "when each side has one local address; and C01_converges_fair_partial — from every reachable state satisfying the "
-                  "decidable start condition ReadyF (ReadyD + the controlling agent knows its peer's addresses; the controlling "
-                  "agent may already be selected if the controlled agent's triggered check is in flight), on EVERY loss-free suffix "
-                  "of deliveries, duplications and clock advances (any order; advances do not jump over a tick of the controlling "
-                  "agent) that delivers every datagram in flight before the clock has moved by L (2 L < 4 s), both agents are "
-                  "selected and Connected once the clock is beyond fairBound = max(now + 2 s + 2 L, nomTime) + 2 s + 4 L. "
+                  "decidable start condition ReadyF (ReadyD, except that the controlling "
+                  "agent may already be selected if the controlled agent's triggered check is in flight; peer-reflexive discovery at "
+                  "the controlling agent inside the suffix is covered), on EVERY loss-free suffix "
+                  "of deliveries, duplications and clock advances (any order; an advance goes at most J beyond the next tick of the "
+                  "controlling agent, J + 2 L < 4 s) that delivers every datagram in flight before the clock has moved by L, both agents are "
+                  "selected and Connected once the clock is beyond fairBound = max(now + 2 s + J + 2 L, nomTime) + 2 s + 2 J + 4 L. "
                   "The FULL liveness statement C01_converges (every fair schedule, every start state) and the "
                   "full MIRROR theorem are NOT proved: convergence and mirror images on arbitrary generated fair suffixes are checked "
                   "by the spec monitor of the correspondence run (differential execution of the model against two real agents).",
@@ -42,8 +43,8 @@ CFG = {
                      "closed system: agents receive datagrams only from the hub (no forged traffic)",
                      "topology (NAT mapping, reachability matrix) is fixed during a session in the theorems"],
     "assumptions": ["LocalsSane: unmapped (mapped x) = x for every address a local candidate is added at",
-                    "liveness on fair loss-free suffixes only with latency bound 2 L < 4 s, no clock advance over a tick of the "
-                    "controlling agent, no peer-reflexive discovery at the controlling agent inside the suffix (KnownSrc), and, if the "
+                    "liveness on fair loss-free suffixes only with latency bound L and jump bound J, J + 2 L < 4 s (an advance goes at most J "
+                    "beyond the next tick of the controlling agent), a Succeeded / selected pair or a pair under budget on a Link already in the start state, and, if the "
                     "controlling agent is already selected, the controlled agent's triggered check still in flight (ReadyF); "
                     "along the canonical fair rounds (+ extra deliveries/duplications between rounds) from ReadyD "
                     "states: UDP4 candidates with pairwise distinct addresses per agent, distinct passwords, no remote-IP filter hit, "
